@@ -454,7 +454,8 @@ def create_for_single_files_subcommand(
             path = os.path.join(os.getcwd(), path)
         path = os.path.normpath(path)
         if os.path.isdir(path):
-            for folder_path, children in post_order_lexicographic(path, session.ignore_spec.get_path_spec()):
+            # patterns are relative to the root of the history, also when only a sub folder is traversed
+            for folder_path, children in post_order_lexicographic(path, session.ignore_spec.get_path_spec(), root_path):
                 for item_name, is_dir in children:
                     file_path = os.path.join(folder_path, item_name)
                     if is_dir or file_path in sealed_file_paths:
